@@ -111,13 +111,16 @@ func (b *bleveIndex) Search(terms []string) ([]string, error) {
 	b.mu.RLock()
 	defer b.mu.RUnlock()
 
+	// quote into a copy: the slice belongs to the caller, who may well run the same query again
+	quoted := make([]string, len(terms))
 	for i, term := range terms {
+		quoted[i] = term
 		if strings.Contains(term, " ") {
-			terms[i] = fmt.Sprintf("\"%s\"", term)
+			quoted[i] = fmt.Sprintf("\"%s\"", term)
 		}
 	}
 
-	query := bleve.NewQueryStringQuery(strings.Join(terms, " "))
+	query := bleve.NewQueryStringQuery(strings.Join(quoted, " "))
 	search := bleve.NewSearchRequest(query)
 
 	res, err := b.index.Search(search)
